@@ -94,9 +94,35 @@ func (c11) Expand(pj json.RawMessage) []json.RawMessage {
 		out = append(out, b)
 	}
 	if p.Batch == "crash" {
-		// every crash point: before system call i, for every call the round makes
-		for i := 0; i < len(pr.trace); i++ {
-			add(simunix.Fault{At: i, Kind: "crash"})
+		// every crash point: before system call i, for every call the round
+		// makes; once with the plan's seeded survivor choices and once with the
+		// most adversarial ones (metadata kept, every unsynced write lost)
+		addC := func(fs []simunix.Fault, choices []int) {
+			q := p
+			q.Faults = fs
+			q.CrashChoices = choices
+			b, _ := json.Marshal(q)
+			out = append(out, b)
+		}
+		n := len(pr.trace)
+		for i := 0; i < n; i++ {
+			addC([]simunix.Fault{{At: i, Kind: "crash"}}, p.CrashChoices)
+			addC([]simunix.Fault{{At: i, Kind: "crash"}}, nil)
+		}
+		// a failed flush followed by a crash: a Barrier that panicked does not
+		// count, a later Barrier that returns must still have flushed
+		for _, rec := range pr.trace {
+			if rec.Op != "fsync" {
+				continue
+			}
+			later := n - rec.N - 1
+			step := 1
+			if later > 8 {
+				step = (later + 7) / 8
+			}
+			for i := rec.N + 1; i < n; i += step {
+				addC([]simunix.Fault{{At: rec.N, Kind: "errno", Errno: int(simunix.EIO)}, {At: i, Kind: "crash"}}, nil)
+			}
 		}
 		return out
 	}
